@@ -495,3 +495,57 @@ pub fn heap_script(cap_cells: usize, ops: &[String]) -> Vec<String> {
 pub fn machine_footprint(machine: &crate::Machine) -> Vec<(&'static str, usize)> {
     machine.verif_footprint()
 }
+
+// ---------------------------------------------------------------------------------------------
+// C29: the toplevel (`'$toplevel':'$repl'/0`) driven in-process with a scripted keyboard.
+
+thread_local! {
+    static KEY_SCRIPT: std::cell::RefCell<Option<(std::collections::VecDeque<u8>, Option<u8>)>> =
+        const { std::cell::RefCell::new(None) };
+}
+
+/// Installs a keyboard script for `get_single_char/1` on this thread: the bytes of `keys` are handed
+/// out one per call; afterwards `fallback` is handed out forever (or, if `None`, the call raises the
+/// interrupt error it raises when reading the terminal fails). Without a script (the default)
+/// `get_single_char/1` behaves as before.
+pub fn set_key_script(keys: &[u8], fallback: Option<u8>) {
+    KEY_SCRIPT.with(|k| *k.borrow_mut() = Some((keys.iter().copied().collect(), fallback)));
+}
+
+/// Removes the keyboard script of this thread; returns how many scripted keys were left unread.
+pub fn clear_key_script() -> usize {
+    KEY_SCRIPT.with(|k| k.borrow_mut().take().map_or(0, |(q, _)| q.len()))
+}
+
+/// `None`: no script installed (read the terminal); `Some(None)`: script exhausted, no fallback;
+/// `Some(Some(b))`: the next scripted key.
+pub(crate) fn next_scripted_key() -> Option<Option<u8>> {
+    KEY_SCRIPT.with(|k| {
+        k.borrow_mut()
+            .as_mut()
+            .map(|(q, fallback)| q.pop_front().or(*fallback))
+    })
+}
+
+/// Runs the real toplevel on `machine` exactly as the binary does
+/// (`run_module_predicate('$toplevel', '$repl'/0)`): it reads queries from the machine's
+/// `user_input` until end of file and halts. Returns the exit code (debug format), and what was
+/// written to in-memory `user_output` / `user_error` streams (empty for other kinds of streams).
+/// The machine must not be used afterwards (it has halted inside the toplevel's choice points).
+pub fn run_toplevel(machine: &mut crate::Machine) -> (String, String, String) {
+    use crate::atom_table::Atom;
+    use std::io::Read;
+    let code = machine.run_module_predicate(
+        atom!("$toplevel"),
+        (atom!("$repl"), 0),
+    );
+    let mut out = Vec::new();
+    let mut err = Vec::new();
+    let _ = machine.user_output.read_to_end(&mut out);
+    let _ = machine.user_error.read_to_end(&mut err);
+    (
+        format!("{:?}", code),
+        String::from_utf8_lossy(&out).into_owned(),
+        String::from_utf8_lossy(&err).into_owned(),
+    )
+}
